@@ -8,6 +8,12 @@ Lemma c17_gcd_vector ra1 dec1 ra2 dec2 :
   gcd ra1 dec1 ra2 dec2 = deg (acos (dot (uvec ra1 dec1) (uvec ra2 dec2))).
 Proof. split; [apply gcd_vector | apply gcd_angle]. Qed.
 
+(* the haversine formula (the text of gcd before its repair) yields the same real number; hav is the squared half chord *)
+Lemma c17_gcd_haversine ra1 dec1 ra2 dec2 :
+  gcd ra1 dec1 ra2 dec2 = deg (2 * asin (Rmin 1 (sqrt (hav ra1 dec1 ra2 dec2)))) /\
+  hav ra1 dec1 ra2 dec2 = (1 - dot (uvec ra1 dec1) (uvec ra2 dec2)) / 2.
+Proof. split; [apply gcd_hav | apply hav_dot]. Qed.
+
 (* the standard position-angle formula, its meaning in the local (north, east) frame, and its range *)
 Lemma c17_bear_pa ra1 dec1 ra2 dec2 :
   bear ra1 dec1 ra2 dec2 =
